@@ -11,7 +11,9 @@ def drivers():
                           ("mem_finder", ["mem_driver.cpp"], ["-DUSE_FINDER=1"]),
                           ("mem_lp16", ["mem_driver.cpp"], ["-DUSE_FINDER=0", "-DABI_LP16"]),
                           ("mem_lp16_finder", ["mem_driver.cpp"], ["-DUSE_FINDER=1", "-DABI_LP16"]),
-                          ("mem_lp64u", ["mem_driver.cpp"], ["-DUSE_FINDER=0", "-DABI_LP64U"])])
+                          ("mem_lp64u", ["mem_driver.cpp"], ["-DUSE_FINDER=0", "-DABI_LP64U"]),
+                          # the backend variant that offers the grant / deny interface (and refuses)
+                          ("mem_gd", ["mem_driver.cpp"], ["-DUSE_FINDER=0", "-DVM_GRANT_DENY"])])
 
 
 def record(drv, wd, mode, tag, thorough):
